@@ -75,38 +75,41 @@ Theorem C07_documented_classes_are_fatal :
 Proof. exact (conj documented_fatal_all fatal_class_is_dropped). Qed.
 Print Assumptions C07_documented_classes_are_fatal.
 
-(* FULL STATEMENT (false on the pinned tree, see findings/C07-*.md):
-     every error class a failing plugin produces (fault_error_classes: closed, server closed,
-     protocol, the caller's deadline, a trunk that ends in the middle of a frame, the
-     plugin's late DeadlineExceeded status) is fatal, i.e. drops the plugin.
-   It holds exactly when fault_gap — computed from the regenerated table — is empty: *)
+(* Every error class a failing plugin produces at the relay functions (fault_error_classes:
+   closed, server closed, protocol, the caller's deadline, a trunk that ends in the middle of
+   a frame, the plugin's late DeadlineExceeded status — the last two were observed on the real
+   code, findings/C07-unexpected-eof-not-fatal.md and findings/C07-deadline-status-not-fatal.md,
+   and repaired) is in the table regenerated from isFatalError, i.e. drops the plugin. *)
 Theorem C07_fault_classes_fatal :
-  fault_gap = [] -> forall c, In c fault_error_classes -> is_fatal c = true.
-Proof. exact fault_gap_empty_all_fatal. Qed.
+  forall c, In c fault_error_classes -> is_fatal c = true.
+Proof. exact fault_classes_all_fatal. Qed.
 Print Assumptions C07_fault_classes_fatal.
 
-(* … and is refuted whenever the gap is not empty, with a witness class on which the relay
-   functions veto the request instead of dropping the plugin: *)
-Theorem C07_fault_classes_fatal_refuted :
-  fault_gap <> [] ->
-  exists c, In c fault_error_classes /\ is_fatal c = false /\
-            forall (Rp : Type) msg, classify (Rp:=Rp) (Failed c msg) = Veto msg.
-Proof. exact fault_gap_refutes. Qed.
-Print Assumptions C07_fault_classes_fatal_refuted.
-
-(* what holds in either case *)
-Theorem C07_fault_classes_fatal_partial :
-  forall c, In c fault_error_classes -> is_fatal c = true \/ In c fault_gap.
-Proof. exact fault_classes_fatal_or_gap. Qed.
-Print Assumptions C07_fault_classes_fatal_partial.
-
-(* the gap of THIS tree, evaluated on the table regenerated from plugin.go: on the pinned
-   tree it is the first alternative (both classes missing); after the proposed patches the last *)
-Theorem C07_fault_gap_of_this_tree :
-  fault_gap = ["io.ErrUnexpectedEOF"; "codes.DeadlineExceeded"] \/ fault_gap = ["io.ErrUnexpectedEOF"] \/
-  fault_gap = ["codes.DeadlineExceeded"] \/ fault_gap = [].
-Proof. exact fault_gap_on_this_tree. Qed.
+(* the classes of that list which the table of THIS tree lacks: none *)
+Theorem C07_fault_gap_of_this_tree : fault_gap = [].
+Proof. exact fault_gap_empty. Qed.
 Print Assumptions C07_fault_gap_of_this_tree.
+
+(* … whereas a class outside the table fails the request with the error's message (this is
+   how a handler's own error vetoes) *)
+Theorem C07_other_classes_veto :
+  forall (Rp : Type) c msg, is_fatal c = false -> classify (Rp:=Rp) (Failed c msg) = Veto msg.
+Proof. exact nonfatal_class_vetoes. Qed.
+Print Assumptions C07_other_classes_veto.
+
+(* Plugins (set I) that do not answer within the time-out T, or whose calls fail with one of
+   the fault classes, leave the request exactly as if they were not in the list. *)
+Theorem C07_failing_plugins_are_absent :
+  forall (Rq Rp Acc Res : Type) (ev_of : Rq -> Z) (init : Rq -> Acc)
+         (apply : Acc -> plugin -> Rp -> Acc + string) (finish : Rq -> Acc -> Res)
+         (T : N) (rq : Rq) (h : plugin -> call Rp) (I : plugin -> bool) (ps : list plugin),
+  (forall p, In p ps -> I p = true ->
+     (T <= c_dur (h p))%N \/ (exists cls msg, c_res (h p) = Failed cls msg /\ In cls fault_error_classes)) ->
+  let o := snd (run_request ev_of init apply finish T rq h ps) in
+  let o' := snd (run_request ev_of init apply finish T rq h (filter (fun p => negb (I p)) ps)) in
+  o_result o = o_result o' /\ filter (fun p => negb (I p)) (o_invoked o) = o_invoked o'.
+Proof. exact failing_is_absent. Qed.
+Print Assumptions C07_failing_plugins_are_absent.
 
 (* the relay functions bound every call by the request time-out, close the plugin on a fatal
    error and return nil, return any other error; the loops stop at the first error and prune
@@ -147,11 +150,22 @@ Example C07_handler_error :
   map p_name (o_invoked (snd (tk_run_request 100 (1%N, 4%Z) h [fxA; fxB; fxC]))) = ["A"; "B"].
 Proof. repeat split. Qed.
 
-(* the witness of the refutation: the trunk ends in the middle of a frame; on a tree whose
-   table lacks the class the request fails, otherwise B is dropped *)
-Example C07_unexpected_eof_witness :
+(* the trunk ends in the middle of a frame / the plugin's server reports the expired deadline:
+   B is dropped, the request is served by A and C *)
+Example C07_unexpected_eof :
   let h := fx_handler (Failed "io.ErrUnexpectedEOF" "failed to read payload from trunk: unexpected EOF") in
-  o_result (snd (tk_run_request 100 (1%N, 4%Z) h [fxA; fxB; fxC])) =
-  if is_fatal "io.ErrUnexpectedEOF" then inl ["A"; "C"]
-  else inr "failed to read payload from trunk: unexpected EOF".
+  o_result (snd (tk_run_request 100 (1%N, 4%Z) h [fxA; fxB; fxC])) = inl ["A"; "C"].
 Proof. vm_compute. reflexivity. Qed.
+
+Example C07_deadline_status :
+  let h := fx_handler (Failed "codes.DeadlineExceeded" "context deadline exceeded") in
+  o_result (snd (tk_run_request 100 (1%N, 4%Z) h [fxA; fxB; fxC])) = inl ["A"; "C"] /\
+  map p_name (fst (tk_run_request 100 (1%N, 4%Z) h [fxA; fxB; fxC])) = ["A"; "C"].
+Proof. vm_compute. split; reflexivity. Qed.
+
+(* hypotheses of C07_failing_plugins_are_absent are satisfiable: B hangs *)
+Example C07_failing_hyp :
+  let h := fun p => if N.eqb (p_id p) 2 then {| c_res := Reply "B"; c_dur := 100 |} else fx_handler (Reply "") p in
+  forall p, In p [fxA; fxB; fxC] -> N.eqb (p_id p) 2 = true ->
+    (100 <= c_dur (h p))%N \/ (exists cls msg, c_res (h p) = Failed cls msg /\ In cls fault_error_classes).
+Proof. intros h p Hp E. left. unfold h. rewrite E. cbn. apply N.le_refl. Qed.
